@@ -42,6 +42,7 @@ class SymWorld:
         self.names = {}  # id(function object) -> name
         self.impure = set()
         self.consts = {}  # name -> constant result
+        self.tables = {}  # name -> {args tuple: result}; other arguments give None
 
     def fn(self, name, impure=False, params=None):
         """A function object named `name`. `params`: explicit parameter names (for the interface layer)."""
@@ -61,6 +62,8 @@ class SymWorld:
                 raise UserFault(name)
             if name in world.consts:
                 return world.consts[name]
+            if name in world.tables:
+                return world.tables[name].get(tuple(pos))
             if name in world.impure:
                 return Imp(name, k, tuple(pos), kwt)
             return App(name, tuple(pos), kwt)
